@@ -95,7 +95,7 @@ func c06Spellings(sc *c06Scenario, fromProj, fromDir, d string) []string {
 		if ok {
 			rels := []string{rel}
 			if rel != "" {
-				rels = append(rels, strings.ReplaceAll(rel, "/", "//")+"/")
+				rels = append(rels, rel+"/") // (a doubled slash inside would be read as <project>//<package>)
 			}
 			for _, r := range rels {
 				for _, k := range kinds {
@@ -201,7 +201,7 @@ func c06Spelled() []c06Scenario {
 		plain := use{"p0", c06Ref(&b.sc, b.file)}
 		for _, u := range uses {
 			if u.text != plain.text {
-				mk(b.class+"-pair", []use{plain, u}, 3)
+				mk(b.class+"-pair", []use{plain, u}, 1) // the count of executions does not depend on the schedule
 			}
 		}
 		// all texts at once, one package each (up to three load statements per package would hide a second
@@ -236,7 +236,7 @@ func c06Spelled() []c06Scenario {
 			}
 		}
 		for i := 0; i+2 < len(abs); i += 5 {
-			mk(b.class+"-onefile", []use{abs[i], abs[(i+len(abs)/3)%len(abs)], abs[(i+2*len(abs)/3)%len(abs)]}, 2)
+			mk(b.class+"-onefile", []use{abs[i], abs[(i+len(abs)/3)%len(abs)], abs[(i+2*len(abs)/3)%len(abs)]}, 1)
 		}
 	}
 
@@ -257,7 +257,7 @@ func c06Spelled() []c06Scenario {
 	}
 	pkgDirs := []string{"", "lib", "p2"}
 	for _, sh := range shapes {
-		for rot := 0; rot < 6; rot++ {
+		for rot := 0; rot < 4; rot++ {
 			sc := c06Scenario{Class: sh.class, Mods: c06CopyMods(sh.mods), Dirs: dirs3, Raw: map[string][]string{}, Reps: 3}
 			k := rot
 			pick := func(fromDir, d string) string {
@@ -287,7 +287,7 @@ func c06Spelled() []c06Scenario {
 	}
 
 	// --- package files that load package files: shared, in a cycle, and loading themselves, under every text
-	for rot := 0; rot < 4; rot++ {
+	for rot := 0; rot < 3; rot++ {
 		base := c06Scenario{Mods: map[string][]string{}, Reps: 3}
 		k := rot
 		pick := func(fromDir, d string) string {
@@ -348,10 +348,9 @@ func c06Spelled() []c06Scenario {
 	return out
 }
 
-// c06RandomSpelled: a random graph (half of them acyclic) whose files are spread over package directories -- some of
-// them in a required project -- with a random text for every load statement, and now and then a load of a package file.
-func c06RandomSpelled(rng *rand.Rand) c06Scenario {
-	sc := c06Random(rng, rng.Intn(2) == 0)
+// c06RandomSpelled takes a random graph and spreads its files over package directories -- some of them in a required
+// project -- with a random text for every load statement, and now and then a load of a package file.
+func c06RandomSpelled(rng *rand.Rand, sc c06Scenario) c06Scenario {
 	sc.Class += "-spelled"
 	sc.Dirs, sc.Proj, sc.Raw = map[string]string{}, map[string]string{}, map[string][]string{}
 	names := make([]string, 0, len(sc.Mods))
